@@ -1186,8 +1186,8 @@ func (g *gen) groupProgZ(n int) {
 		case 8:
 			step = fmt.Sprintf("twocol,0,%s,%s,%s,%d,%d,%s,%s", encInt(g.pos(4)), encText(g.para(mode, ls, 2)), encText(g.para(mode, ls, 2)), g.r.Intn(4), g.width(), encPct(g.pct()), g.optsArg(o))
 		case 9:
-			data := [][]string{{g.word(mode, 3), ""}, {"", g.word(mode, 3)}}
-			step = fmt.Sprintf("table,0,%s,%s,%d,%s", encInt(g.pos(4)), encTable(data), g.width(), g.optsArg(o))
+			data := [][]string{{g.word(mode, 3), ""}, {g.word(mode, 2)}, {"", g.word(mode, 3), g.word(mode, 1)}, {}}
+			step = fmt.Sprintf("table,0,%s,%s,%d,%s", encInt(g.pos(4)), encTable(data[:1+g.r.Intn(4)]), g.width(), g.optsArg(o))
 		case 10:
 			defs := [][2]string{{g.word(mode, 4), g.line(mode, 5)}, {"", ""}}
 			step = fmt.Sprintf("deftable,0,%s,%s,%d,%s", encInt(g.pos(4)), encDefs(defs), g.width(), g.optsArg(o))
